@@ -2,6 +2,7 @@
 from __future__ import annotations
 
 import json
+import os
 
 from . import structural as ST, explore, world as W
 from .common import Run, Machinery
@@ -31,10 +32,13 @@ def inductive(run, wd, part):
 def replay_structural(prop, path, wd):
     with open(path) as f:
         rp = json.load(f)
-    if rp.get("kind") == "repo-test":
+    if rp.get("kind") in ("repo-test", "idiom"):
         from . import repo_traces
         run = Run(prop, "quick", 0)
-        repo_traces.check(run, prop, wd, select=rp["test"])
+        sel = rp["test"]
+        if rp["kind"] == "idiom":
+            sel = os.path.join(os.environ.get("VERIF_ROOT", "/verif"), "idioms", "test_idioms.py") + "::" + rp["test"].split("::")[-1]
+        repo_traces.check(run, prop, wd, select=sel)
         if run.violations:
             print(f"VIOLATION property={prop} replay={path}  # reproduced: {run.violations[0]['what'][:200]}")
             return 1
@@ -83,6 +87,8 @@ def c01(tier, seed, wd, replay):
         ST.run_config(run, "C01", name, consts, wd, caching=True)
         sim = ST.cfg("links-sim-4x4-e4", NV=4, InitBV=4, NL=4, MaxEnds=4, UseN=True, Kinds={"D", "U", "T", "D2"})
         ST.run_config(run, "C01", sim[0], sim[1], wd, simulate="num=300", depth=30, seed=seed + 1)
+    from . import repo_traces as _rt
+    _rt.check_idioms(run, "C01", wd)                # usage idioms (/verif/idioms) recorded and judged like the repository's tests
     run.exhaustive = True
     run.assumptions = ASSUME_COMMON
     mandatory = [lambda c: c.startswith("setv:") and "self-loop" in c and "new=fresh" in c,
@@ -112,6 +118,8 @@ def _generic(prop, tier, seed, wd, replay, rule, quick_cfgs, thorough_cfgs, mand
     if repo_tests:
         from . import repo_traces
         repo_traces.check(run, prop, wd)
+    from . import repo_traces as _rt
+    _rt.check_idioms(run, prop, wd)                 # usage idioms (/verif/idioms) recorded and judged like the repository's tests
     if prop == "C03":
         from . import base_exec
         base_exec.check(run, wd, seed, tier)       # informational: BaseObject namespace (spec/EGBase.tla)
@@ -206,6 +214,8 @@ def c19(tier, seed, wd, replay):
         nt, _ = ST.run_config(run, "C19", name, consts, wd, caching=False)
         nontrivial |= nt
     lawattrs(run, wd, tier)
+    from . import repo_traces as _rt
+    _rt.check_idioms(run, "C19", wd)
     run.exhaustive = True
     run.assumptions = ASSUME_COMMON
     return run.finish(nontrivial_filter=lambda c: c in nontrivial or c.startswith("lawattr"), mandatory=mandatory)
